@@ -117,24 +117,34 @@ Theorem C04_history_off : forall (V : Type) (N : num V) (I : impl) (m : @model V
   fl_store fl = false -> view (fst (run N I m L lp fl r false (fresh h) ops)) = [].
 Proof. exact @history_off. Qed.
 
-(* constructing the fitness of a resumed fit (the stored best vector is evaluated inside the constructor):
-   with the history lists created first no exception escapes and the evaluation is an ordinary call ... *)
+(* constructing the fitness of a resumed fit (the stored best vector is evaluated inside the constructor).
+   Current code: the evaluation does not go through __call__: the constructor returns exactly when the stored
+   vector evaluates successfully, and the fitness (history included) is untouched, whatever the flags *)
 Theorem C04_constructor : forall (V : Type) (N : num V) (I : impl) (m : @model V) (L : @lik V) (lp : @lprior V) (fl : flags) (r : V)
+    (late : bool) (st : @state V) (pbuf : nat),
+  ((exists ll b, evaluate N m L (buf (heap st) pbuf) = EvOk ll b) <->
+   construct N I m L lp fl r false late st pbuf = Some st) /\
+  (forall st', construct N I m L lp fl r false late st pbuf = Some st' -> st' = st).
+Proof. exact @construct_direct_spec. Qed.
+
+(* earlier code (evaluation through __call__): with the history lists created first no exception escapes and the
+   evaluation is an ordinary call ... *)
+Theorem C04_constructor_via_call : forall (V : Type) (N : num V) (I : impl) (m : @model V) (L : @lik V) (lp : @lprior V) (fl : flags) (r : V)
     (st : @state V) (pbuf : nat),
-  construct N I m L lp fl r false st pbuf = Some (fst (step N I m L lp fl r st (OCall pbuf))).
+  construct_via_call N I m L lp fl r false st pbuf = Some (fst (step N I m L lp fl r st (OCall pbuf))).
 Proof. exact @construct_early. Qed.
 
-(* ... pinned code (lists created afterwards): refuted; it raises exactly when the evaluation succeeds and the
+(* ... as first pinned (lists created afterwards): refuted; it raises exactly when the evaluation succeeds and the
    history is switched on, and otherwise leaves a fresh fitness *)
 Theorem C04_constructor_refuted :
-  exists (m : @model Q) L lp fl r h pbuf, construct numQ buggy_impl m L lp fl r true (fresh h) pbuf = None.
+  exists (m : @model Q) L lp fl r h pbuf, construct_via_call numQ buggy_impl m L lp fl r true (fresh h) pbuf = None.
 Proof. exact constructor_refuted. Qed.
 
 Theorem C04_constructor_partial : forall (V : Type) (N : num V) (I : impl) (m : @model V) (L : @lik V) (lp : @lprior V) (fl : flags) (r : V)
     (h : list (list V)) (pbuf : nat),
-  (construct N I m L lp fl r true (fresh h) pbuf = None <->
+  (construct_via_call N I m L lp fl r true (fresh h) pbuf = None <->
    (fl_store fl = true /\ exists ll b, evaluate N m L (buf h pbuf) = EvOk ll b)) /\
-  (forall st, construct N I m L lp fl r true (fresh h) pbuf = Some st -> st = fresh h).
+  (forall st, construct_via_call N I m L lp fl r true (fresh h) pbuf = Some st -> st = fresh h).
 Proof. exact (fun V N I m L lp fl r h pbuf => conj (@construct_late_raises_iff V N I m L lp fl r h pbuf) (@construct_late_otherwise V N I m L lp fl r h pbuf)). Qed.
 
 (* pyswarms: a particle of the model's length gets -2*(ll + sum of terms) unless that is nan, a limit or
@@ -180,3 +190,4 @@ Print Assumptions C04_history_partial.
 Print Assumptions C04_history_refuted.
 Print Assumptions C04_pyswarms_run.
 Print Assumptions C04_constructor_partial.
+Print Assumptions C04_constructor.
